@@ -111,7 +111,7 @@ def backend_runs(r, quick):
 
 
 def run():
-    chk = Check("C02", props_modules=["GFO.Props.C02", "GFO.Props.LocalRuns", "GFO.Props.PopRuns", "GFO.Props.EvoRuns", "GFO.Props.PatternRuns", "GFO.Props.PowellRuns", "GFO.Props.SimplexRuns", "GFO.Props.DirectRuns", "GFO.Props.GridRuns"])
+    chk = Check("C02", props_modules=["GFO.Props.C02", "GFO.Props.LocalRuns", "GFO.Props.PopRuns", "GFO.Props.EvoRuns", "GFO.Props.PatternRuns", "GFO.Props.PowellRuns", "GFO.Props.SimplexRuns", "GFO.Props.DirectRuns", "GFO.Props.SmboPosRuns", "GFO.Props.GridRuns"])
     chk.build_and_audit()
     r = C.rng("C02")
     quick = C.tier() != "thorough"
@@ -134,5 +134,6 @@ def run():
     localgen.add_powell_to(chk, C.rng("C02-powell"), C.T(20, 200), constraint_p=1.0, nonfinite_p=0.0)
     localgen.add_simplex_to(chk, C.rng("C02-simplex"), C.T(20, 200), constraint_p=1.0, nonfinite_p=0.0)
     localgen.add_direct_to(chk, C.rng("C02-direct"), C.T(20, 200), constraint_p=1.0, nonfinite_p=0.0)
+    localgen.add_smbo_to(chk, C.rng("C02-smbo"), C.T(4, 30), constraint_p=1.0, nonfinite_p=0.0)
     scen.shutdown_manager()
     return chk.finish()
